@@ -70,6 +70,17 @@ func runC18(c *Ctx) error {
 	if err := c18GenCm(c); err != nil {
 		return err
 	}
+	{
+		var nerr error
+		c18NaCases(c, func(line, tag string) {
+			if nerr == nil {
+				nerr = c18One(c, line, tag)
+			}
+		})
+		if nerr != nil {
+			return nerr
+		}
+	}
 	st, err := c18Stack(c)
 	if err != nil {
 		return err
@@ -121,6 +132,15 @@ func c18One(c *Ctx, input, class string) error {
 		obs := c18RunCm(head, toks[1:])
 		c.Case(input, obs)
 		c.Count("cm:" + class)
+	case "na":
+		var draws []string
+		for _, d := range toks[1:] {
+			if d != "" {
+				draws = append(draws, d)
+			}
+		}
+		c.Case(input, c18RunNa(head, draws))
+		c.Count("na:" + class)
 	case "wr", "wa":
 		st, err := c18Stack(c)
 		if err != nil {
